@@ -2,7 +2,7 @@
 //! Over-fine on purpose: every field is kept; floats by bit pattern, time stamps as
 //! integer ages in ms relative to the frozen clock T0, rows sorted by address.
 
-use crate::shim::T0_SECS;
+use crate::shim;
 use chrono::{DateTime, TimeZone, Utc};
 use serde_json::{Value, json};
 use squitterator::Plane;
@@ -71,7 +71,8 @@ pub struct Snap {
 }
 
 fn t0() -> DateTime<Utc> {
-    Utc.timestamp_opt(T0_SECS, 0).unwrap()
+    let (s, ns) = shim::epoch();
+    Utc.timestamp_opt(s, ns as u32).unwrap()
 }
 fn age(t: DateTime<Utc>) -> i64 {
     t0().signed_duration_since(t).num_milliseconds()
